@@ -50,7 +50,7 @@ def gen_scenario_plain(rng):
     faults = {}
     if rng.random() < 0.25:
         faults[str(rng.randrange(0, 6))] = rng.choice(["fail", "empty"])
-    return gen_args.gen_rotate(rng, peer_faults=faults)
+    return gen_args.gen_rotate(rng, peer_faults=faults, repeats=True)
 
 
 def with_symlink(rng, recipe):
@@ -147,6 +147,13 @@ def judge(recipe, fs0, res, faulted, base=None):
         if label != "success" and tool in ("yaml-set", "yaml-merge"):
             if res.exit != 0 and fs1 != fs0:
                 out.append("A:disk-changed-after-prewrite-failure:" + label)
+        elif tool in ("yaml-set", "yaml-merge") and res.exit != 0 \
+                and fs1 != fs0:
+            # No fault was injected, so whatever made this run fail was in
+            # its arguments and inputs from the start ("impossible change"):
+            # a reason that exists before writing has to be found before
+            # writing.
+            out.append("A:disk-changed-by-a-request-that-was-refused-late")
         # C: the backup is the pre-image
         if meta["backup"] and res.exit == 0:
             written = {p for (_k, kind, p, _n, f) in res.trace
